@@ -421,12 +421,14 @@ def r9_mutable_defaults(ctx, modules=None):
 
 def _compaction_state(ctx):
     from .c04 import r2_aligned_stores      # writing a selection compacts the extractor in place: every table must end up consistent with the new buffer
-    r2_aligned_stores(ctx)
+    with ctx.only("_make_contigous", "BamBufferExtractor.data"):      # (selection / concatenation build new objects: not this property's business)
+        r2_aligned_stores(ctx)
 
 
 def _copies_copy(ctx):
     from .c07 import r2_operands_encoded    # copy() really copies (str_to_int & co. rely on it before they overwrite characters)
-    r2_operands_encoded(ctx)
+    with ctx.only(".copy"):
+        r2_operands_encoded(ctx)
 
 
 from ..through_time import make_rule as _mk_tt
